@@ -461,12 +461,26 @@ func main() {
 	repo := flag.String("repo", "/repo", "repository root")
 	out := flag.String("out", "", "output directory for rewritten files and overlay.json")
 	extra := flag.String("extra", "", "directory with extra files to add to the root package (accessors)")
+	replaceDir := flag.String("replace-dir", "", "directory whose *.go files replace the files of the same name in -replace-target (regenerated stubs)")
+	replaceTarget := flag.String("replace-target", "cmd/protoc-gen-gorums/dev", "package directory (relative to -repo) the replacement files belong to")
 	flag.Parse()
 	pats := flag.Args()
 	if len(pats) == 0 {
 		pats = []string{"."}
 	}
 	cfg := &packages.Config{Dir: *repo, Mode: packages.NeedName | packages.NeedFiles | packages.NeedCompiledGoFiles | packages.NeedSyntax | packages.NeedTypes | packages.NeedTypesInfo | packages.NeedImports | packages.NeedDeps}
+	if *replaceDir != "" {
+		cfg.Overlay = map[string][]byte{}
+		ents, _ := os.ReadDir(*replaceDir)
+		for _, e := range ents {
+			if strings.HasSuffix(e.Name(), ".go") {
+				b, err := os.ReadFile(filepath.Join(*replaceDir, e.Name()))
+				if err == nil {
+					cfg.Overlay[filepath.Join(*repo, *replaceTarget, e.Name())] = b
+				}
+			}
+		}
+	}
 	pkgs, err := packages.Load(cfg, pats...)
 	if err != nil {
 		fmt.Fprintln(os.Stderr, err)
